@@ -376,3 +376,14 @@ impl SecondaryStorage {
         Ok(out)
     }
 }
+
+impl SecondaryStorage {
+    /// Wait until the compaction that may currently be running on any table has finished: take
+    /// (and release) the per-table lock that the compactor holds while it works on a table.
+    pub async fn verif_quiesce(&self) {
+        let ids: Vec<u32> = self.tables.read().keys().map(|k| k.table_id).collect();
+        for id in ids {
+            drop(self.txn_mgr.lock_for_deletion(id).await);
+        }
+    }
+}
